@@ -251,9 +251,12 @@ def shrink_bucket(prop, tier, test_idx, bucket, budget_s):
     class Found(Exception):
         pass
 
+    class Stop(BaseException):
+        pass
+
     def one(case):
         if time.time() > t_end:
-            return
+            raise Stop()
         col = Collector()
         out = run_body(test, case, col, o)
         if out is not None and any(v.sig == sig for v in out.violations):
@@ -441,9 +444,11 @@ def main(argv=None):
             new_violations.append((ti, t, b))
     for text, cnt in sorted(known_hit.items()):
         lines.append(f"KNOWN-FINDING: property={prop.ID} {text} [{cnt} cases]")
-    shrink_budget = 20 if tier == "quick" else 120
+    max_shrunk = 5 if tier == "quick" else 8
+    total_budget = 30 if tier == "quick" else 480
+    shrink_budget = max(4, total_budget / max(1, min(len(new_violations), max_shrunk)))
     reported = []
-    for ti, t, b in new_violations[:8]:
+    for ti, t, b in new_violations[:max_shrunk]:
         if b["origin"].get("replay"):
             case_json, shrunk = b["case"], False
         else:
@@ -458,7 +463,7 @@ def main(argv=None):
         lines.append(f"  detail={b['detail']}")
         reported.append({"sig": b["sig"], "clause": b["clause"], "count": b["count"], "detail": b["detail"], "replay": rel})
         status = 1
-    for ti, t, b in new_violations[8:]:
+    for ti, t, b in new_violations[max_shrunk:]:
         lines.append(f"  (further bucket) clause={b['clause']} sig={b['sig']} count={b['count']}")
         reported.append({"sig": b["sig"], "clause": b["clause"], "count": b["count"], "detail": b["detail"]})
 
